@@ -375,6 +375,12 @@ func ruleC17Matrix(c *Ctx) {
 					}
 				})
 			}
+			// the action tested is the one the router dispatched on: the URL query parameter
+			if allow != "" && !strings.Contains(allow, `.Actions[(net/url.Values).Get((*net/url.URL).Query($1.URL),"action")]`) {
+				c.Bad(rule, "replica/rest.checkAction | tests the dispatched action", "", "the action looked up in replica.Actions is not req.URL.Query().Get(\"action\"), which is what the router matched on: "+allow, nil)
+			} else if allow != "" {
+				c.OK(rule, "replica/rest.checkAction | tests the dispatched action", "", "Actions[req.URL.Query().Get(\"action\")]", false)
+			}
 			if len(dyn) == 1 && allow != "" {
 				c.Guard(rule, cl, dyn, "run handler", nil, atom("action is allowed in the current state", allow))
 			} else {
@@ -552,4 +558,98 @@ func pkgOf(f *ssa.Function) *types.Package {
 		return f.Parent().Pkg.Pkg
 	}
 	return nil
+}
+
+// ruleNilOK: in the REST handler region, a function with pointer results and an error result
+// whose success return can carry a nil pointer must not have a caller that dereferences that
+// result after testing only the error.
+func ruleNilOK(rule string) ruleFn {
+	return func(c *Ctx) {
+		c.Doc(rule, "handler region: for every function returning (…*T…, error): if a nil-error return can yield a nil pointer for result i (a nil constant reaches it and the return is not cut off by the test result != nil), no caller dereferences result i without its own nil test")
+		region := handlerRegion(c.P)
+		n := 0
+		var fns []*ssa.Function
+		for f := range region {
+			fns = append(fns, f)
+		}
+		sort.Slice(fns, func(i, j int) bool { return FnName(fns[i]) < FnName(fns[j]) })
+		for _, f := range fns {
+			ei := errResultIndex(f)
+			res := f.Signature.Results()
+			if ei < 0 || res.Len() < 2 {
+				continue
+			}
+			for i := 0; i < res.Len(); i++ {
+				pt, ok := res.At(i).Type().Underlying().(*types.Pointer)
+				if !ok {
+					continue
+				}
+				if _, ok := pt.Elem().Underlying().(*types.Struct); !ok {
+					continue
+				}
+				n++
+				// can a success return carry nil in result i?
+				var leak *ssa.Return
+				for _, r := range nilErrorReturns(f) {
+					rr := r.(*ssa.Return)
+					v := strip(rr.Results[i])
+					hasNil := false
+					for _, x := range phiInputs(v) {
+						if isNilConst(x) {
+							hasNil = true
+						}
+					}
+					if !hasNil {
+						continue
+					}
+					_, nonNil := nilTestEdges(f, v)
+					if len(Query{Fn: f, IsSite: func(in ssa.Instruction) bool { return in == r }, GenEdge: nonNil}.Run()) > 0 {
+						leak = rr
+					}
+				}
+				key := fmt.Sprintf("%s | result %d non-nil on success", FnName(f), i)
+				if leak == nil {
+					c.OK(rule, key, c.P.Pos(f.Pos()), "no success return can carry a nil pointer", true)
+					continue
+				}
+				// callers that dereference without a nil test
+				bad := ""
+				if node := c.P.CG.Nodes[f]; node != nil {
+					for _, e := range node.In {
+						if e.Site == nil || e.Caller == nil || e.Caller.Func == nil || !region[e.Caller.Func] {
+							continue
+						}
+						call, ok := e.Site.(*ssa.Call)
+						if !ok || call.Referrers() == nil {
+							continue
+						}
+						for _, ref := range *call.Referrers() {
+							ex, ok := ref.(*ssa.Extract)
+							if !ok || ex.Index != i || ex.Referrers() == nil {
+								continue
+							}
+							for _, use := range *ex.Referrers() {
+								fa, ok := use.(*ssa.FieldAddr)
+								if !ok || fa.X != ssa.Value(ex) {
+									continue
+								}
+								_, nn := nilTestEdges(e.Caller.Func, ex)
+								if len(Query{Fn: e.Caller.Func, IsSite: func(in ssa.Instruction) bool { return in == ssa.Instruction(fa) }, GenEdge: nn}.Run()) > 0 {
+									bad = FnName(e.Caller.Func) + " at " + c.P.InstrPos(fa)
+								}
+							}
+						}
+					}
+				}
+				if bad == "" {
+					c.OK(rule, key+" | callers test the pointer", c.P.InstrPos(leak), "a nil result is possible on success, but every caller tests it before use", true)
+				} else {
+					c.Bad(rule, key, c.P.InstrPos(leak), "this return reports success with a nil pointer, and "+bad+" dereferences it after testing only the error: the request handler panics", nil)
+				}
+			}
+		}
+		if n < 5 {
+			c.Undecided(rule, "vacuity-floor", "", fmt.Sprintf("only %d pointer results found in the handler region", n))
+		}
+	}
 }
